@@ -300,15 +300,16 @@ class SwapDisjToFrontMacro(Macro):
 
     def get_proof_term(self, args, prevs) -> ProofTerm:
         prev = prevs[0]
-        _, idx = args
-        disjs = strip_disj_n(prev.prop, idx)
-        eq_pt = ProofTerm.reflexive(disjs[-1])
+        l_args, idx = args
+        if idx >= len(l_args):
+            raise AssertionError("swap_disj_to_front: index out of bounds")
+        if strip_disj_n(prev.prop, len(l_args)) != l_args:
+            raise AssertionError("swap_disj_to_front: clause does not match")
 
-        # Add one disjunct at one time.
-        for t in reversed(disjs[:-1]):
-            eq_pt = ProofTerm.reflexive(disj(t)).combination(eq_pt)
-            eq_pt.on_rhs(rewr_conv('disj_swap_eq'))
-        return eq_pt.equal_elim(prev)
+        # Same disjuncts in another order: imp_disj proves the implication.
+        r_args = [l_args[idx]] + l_args[:idx] + l_args[idx+1:]
+        imp_pt = ProofTerm("imp_disj", Implies(prev.prop, Or(*r_args)))
+        return imp_pt.implies_elim(prev)
 
 
 @register_macro("combine_disj_clauses")
